@@ -121,7 +121,7 @@ def data_msg(system, stream, function, w=False):
 
 
 def tag_of(header) -> int:
-    st = header.s_type.value
+    st = header.s_type.value if hasattr(header, "s_type") else 0
     return header.stream * 256 + header.function if st == 0 else 65536 + st
 
 
@@ -301,7 +301,7 @@ class Tap:
                 with tap.lock:
                     d = tap.dispatcher()
                     ser = getattr(tap.tl, "serial", None)
-                    control = message.header.s_type.value != 0
+                    control = hasattr(message.header, "s_type") and message.header.s_type.value != 0
                     if not tap.tl.decided or (control and tap.tl.unrouted):
                         tap.dropped.add(ser)  # no routing decision / a control message nobody waits for: not a data delivery
                     elif tap.tl.unrouted:
@@ -423,6 +423,87 @@ REPLY_ONLY = False  # set by the probe: the endpoint routes only replies (even f
 
 def aflag(atomic) -> str:
     return f"{int(atomic)}{int(REPLY_ONLY)}"
+
+
+# ---------------------------------------------------------------------------------------------- a SECS-I endpoint (no select gate) fed at byte level
+class SerialMem(secsgem.common.Connection):
+    def __init__(self, settings):
+        super().__init__(settings)
+        self.out = bytearray()
+        self.lock = threading.Lock()
+
+    def enable(self):
+        pass
+
+    def disable(self):
+        pass
+
+    def send_data(self, data):
+        with self.lock:
+            self.out += bytes(data)
+        return True
+
+    def take(self):
+        with self.lock:
+            b = bytes(self.out)
+            self.out.clear()
+            return b
+
+
+class SecsIRig:
+    """real SecsIProtocol (equipment role); the harness plays the host on the line: ENQ, wait EOT, block, wait ACK"""
+
+    def __init__(self):
+        import secsgem.secsi
+
+        class S(secsgem.secsi.SecsISettings):
+            def create_connection(self_inner):
+                self_inner.conn = SerialMem(self_inner)
+                return self_inner.conn
+
+        self.secsi = secsgem.secsi
+        self.p = secsgem.secsi.SecsIProtocol(S(port="X", device_type=secsgem.common.DeviceType.EQUIPMENT))
+        self.c = self.p._connection
+        self.tap = Tap(self.p)
+        self.tap.install()
+        self.events = []
+        self.ev_lock = threading.Lock()
+        self.block_first = None
+        self.p.events.message_received += lambda d: Rig._on_message(self, d)
+
+    def connect(self):
+        self.c.on_connected({"source": self.c})
+        return True
+
+    def disconnect(self):
+        self.c.on_disconnecting({"source": self.c})
+        self.c.on_disconnected({"source": self.c})
+
+    def _await(self, byte, limit=2.0):
+        end = time.time() + limit
+        seen = b""
+        while time.time() < end:
+            seen += self.c.take()
+            if bytes([byte]) in seen:
+                return True
+            time.sleep(0.002)
+        return False
+
+    def feed(self, system, stream, function):
+        """one single-block message, handshaked; True if it was ACKed"""
+        from secsgem.secsi.header import SecsIHeader
+        from secsgem.secsi.message import SecsIMessage
+        m = SecsIMessage(SecsIHeader(system, 0, stream, function), b"")
+        ok = True
+        for b in m.blocks:
+            self.c.on_data({"source": self.c, "data": bytes([0x05])})
+            ok = ok and self._await(0x04)
+            self.c.on_data({"source": self.c, "data": bytes(b.encode())})
+            ok = ok and self._await(0x06)
+        return ok
+
+    quiesce = Rig.quiesce
+
 
 
 def model_run(drv, atomic, patched, c0, n, toks):
@@ -1037,6 +1118,136 @@ def part_primary_collision(cx: Ctx):
     res.exhaustive_parts.append("routing window: all 3 orders of {test, put} x {_remove_queue} on the real _on_connection_message_received / send_and_waitfor_response")
 
 
+# ---------------------------------------------------------------------------------------------- (vi) link loss with work in progress
+def part_link_loss_in_progress(cx: Ctx):
+    """(a) the application is busy with message N, N+1 and N+2 are received and queued, the link drops and comes back: everything
+    received before the drop is still handed to the application exactly once, in arrival order (NOT: one at a time - that is the known
+    two-dispatcher class).  (b) a request is outstanding (within T3) when the link drops: the call returns its reply or None, never
+    raises; a reply with its system bytes arriving on the re-established link within T3 reaches that caller."""
+    res = cx.res
+    # ---- (a) on a SECS-I endpoint: no select gate between reception and dispatch (HSMS: see the note below)
+    for count in ((2, 3) if cx.big else (2,)):
+        rig = SecsIRig()
+        rig.connect()
+        c0 = rig.p._system_counter
+        gate = threading.Event()
+        base = 650000
+        systems = [base + i for i in range(count + 1)]
+        rig.block_first = (systems[0], gate, 4.0)
+        acked = [rig.feed(s_, 6, 31 + 2 * i) for i, s_ in enumerate(systems)]
+        limit = time.time() + 2.0
+        while time.time() < limit:  # N is being handled, the others are queued behind it
+            with rig.ev_lock:
+                started = any(e[0] == "start" for e in rig.events)
+            if started and rig.p._thread._dispatch_queue.qsize() >= count:
+                break
+            time.sleep(0.003)
+        queued = rig.p._thread._dispatch_queue.qsize()
+        rig.disconnect()
+        time.sleep(0.02)
+        rig.connect()
+        case = {"part": "link-loss", "variant": "queued-behind-busy-handler", "queued": queued, "acked_on_the_line": acked}
+        want = [(s_, 6 * 256 + 31 + 2 * i) for i, s_ in enumerate(systems)]
+
+        def delivered():
+            with rig.ev_lock:
+                return [(s_, t) for (k, s_, t) in rig.events if k == "start" and s_ >= base]
+
+        # the new link carries traffic again (this is also what wakes a dispatcher thread that waits for its trigger)
+        rig.feed(base - 1, 6, 1)
+        limit = time.time() + 1.0
+        while time.time() < limit and len(delivered()) < len(want):
+            time.sleep(0.005)
+        gate.set()  # whoever still waits for the busy handler may go on now
+        limit = time.time() + 2.0
+        while time.time() < limit and len(delivered()) < len(want):
+            time.sleep(0.005)
+        rig.block_first = None
+        rig.quiesce(limit=1.0)
+        got = delivered()
+        res.count(("link-loss-queued", count), sample=dict(case, delivered=got))
+        res.bump("link_lost_with_messages_queued_behind_a_busy_handler", f"queued={queued}")
+        if not all(acked):
+            res.violate("c06-line", "a block fed to the SECS-I endpoint was not acknowledged", case)
+        elif got != want:
+            res.violate("c06-queued-lost", "messages received (and acknowledged on the line) before the link was lost, queued behind a busy "
+                        "message_received handler, were not all handed to the application exactly once, in order, after the link came back",
+                        dict(case, delivered=got), want, got)
+        toks, err = rig.tap.tokens(cx.atomic)
+        if cx.drv.available and toks is not None:
+            line, ans = model_run(cx.drv, cx.atomic, cx.patched, c0, max(rig.tap.n_callers, 1), toks)
+            res.traces_validated += 1
+            m = parse_model(ans)
+            impl = [f"{a_}:{b_}" for (a_, b_) in got]
+            if m is None or [x for x in m["delivered"] if int(x.split(":")[0]) >= base] != impl:
+                res.disagree("link loss with queued messages vs Model.Txn", {"case": case, "line": line[:1200]}, ans[:400], impl)
+    # ---- (b)
+    for variant in ("reply-after-reconnect", "no-reply"):
+        rig = Rig(t3=0.8)
+        if not rig.connect():
+            return
+        c0 = rig.p._system_counter
+        out = {}
+
+        def call():
+            try:
+                out["r"] = rig.p.send_and_waitfor_response(Fn(1, 3))
+            except BaseException as exc:  # noqa: BLE001
+                out["exc"] = exc
+
+        t = threading.Thread(target=call, daemon=True)
+        t.start()
+        limit = time.time() + 2
+        while time.time() < limit and not rig.c.data_systems():
+            time.sleep(0.002)
+        wire = rig.c.data_systems()
+        if not wire:
+            res.violate("c06-request-hang", "request never reached the wire", {"part": "link-loss"})
+            continue
+        k = wire[0][0]
+        limit = time.time() + 2
+        while time.time() < limit and "sent" not in rig.tap.pc.values():  # the caller is inside response_queue.get() now
+            time.sleep(0.002)
+        time.sleep(0.01)
+        rig.disconnect()
+        time.sleep(0.02)
+        case = {"part": "link-loss", "variant": variant, "system": k}
+        if not rig.connect():
+            res.violate("c06-reconnect-select", "endpoint could not be selected again after the link was lost with a request outstanding", case)
+            continue
+        if variant == "reply-after-reconnect":
+            rig.feed(data_msg(k, 1, 4))
+        t.join(2.5)
+        rig.quiesce(limit=1.0)
+        with rig.ev_lock:
+            starts = [(s_, tg) for (kk, s_, tg) in rig.events if kk == "start"]
+        r = out.get("r")
+        res.count(("link-loss-request", variant), sample=dict(case, returned=repr(out.get("exc")) if "exc" in out else show_result(r), application_got=starts))
+        problems = []
+        if t.is_alive():
+            problems.append("send_and_waitfor_response did not return within T3 + 1.7 s")
+        if "exc" in out:
+            problems.append(f"send_and_waitfor_response raised {type(out['exc']).__name__} instead of returning its reply / None")
+        if variant == "reply-after-reconnect":
+            if "exc" not in out and (r is None or r.header.system != k or r.header.function != 4):
+                problems.append("the reply that arrived on the re-established link within T3 did not reach the waiting caller")
+            if (k, 1 * 256 + 4) in starts:
+                problems.append("the reply to the outstanding request was handed to the application as an unsolicited message")
+        elif "exc" not in out and r is not None:
+            problems.append("the caller got a message although no reply arrived")
+        if problems:
+            res.violate("c06-request-across-link-loss", "; ".join(problems), case, "reply / None", {"returned": repr(out.get("exc", r)), "application": starts})
+        toks, err = rig.tap.tokens(cx.atomic)
+        if cx.drv.available and toks is not None and not t.is_alive():
+            line, ans = model_run(cx.drv, cx.atomic, cx.patched, c0, max(rig.tap.n_callers, 1), toks)
+            res.traces_validated += 1
+            m = parse_model(ans)
+            want = ("KeyError" if "exc" in out else show_result(r), [f"{a_}:{b_}" for (a_, b_) in starts])
+            got = None if m is None else (("KeyError" if m["callers"][0][3] == "1" else m["callers"][0][2]) if m["callers"] else None, m["delivered"])
+            if got != want:
+                res.disagree("request outstanding across a link loss vs Model.Txn", {"case": case, "line": line[:1000]}, ans[:400], want)
+
+
 # ---------------------------------------------------------------------------------------------- static tie: the SECS-I routing branch
 def part_static_tie(cx: Ctx):
     """the harness drives HSMS; the SECS-I endpoint shares Protocol.send_and_waitfor_response and has its own copy of the routing branch:
@@ -1130,6 +1341,8 @@ def main():
             part_unsolicited_and_reconnect(cx)
         if want("primary"):
             part_primary_collision(cx)
+        if want("link-loss"):
+            part_link_loss_in_progress(cx)
         if replay_classes:
             res.violations = [v for v in res.violations if v["class"] in replay_classes]  # "does the recorded failure still fail"
     except Exception as exc:  # noqa: BLE001
